@@ -25,7 +25,13 @@ PROP = dict(
          'one live thinker blocked, during every line of every resume prefix, ends with blocked thinkers, whole games; + random '
          'schedules; thorough adds every ordering of {move line, move line with answer landing, thinker release, grace, Time, '
          'RequestUndo, RequestUndo with answer landing} of length 6 (play) and 5 (resume, observer, after two plies). A few hostile '
-         'schedules (illegal / malformed lines) are compared with the model only. Schedules whose trace fails the oracle or the model '
+         'schedules (illegal / malformed lines) are compared with the model only. LINE LAYER: the model run starts from the RAW bytes of '
+         'every line the real loop received (BotLine.classify = both switches of handleMove, the three chat regexps, strconv.Atoi on '
+         'the clock fields, ParseServer); the HandleTell/HandleChat calls with their arguments and g.times after every event are L1 '
+         'observables; 78 chat / near-miss lines (other game ids incl. prefix and extension of ours, extra / leading blanks, tabs, case, '
+         'unknown command words, chat whose room / name / text are protocol words or our game string, corner cases of the three '
+         'patterns, invalid UTF-8), 16 Time spellings (signs, overflow, junk, empty fields), 38 hostile lines (index panics, P/M '
+         'texts ParseServer rejects or no server writes, protocol words behind "Tell"). Schedules whose trace fails the oracle or the model '
          'are re-run 3 times before they count. non-trivial = the bot sent or recorded something; distinct = distinct traces',
     assumptions=['the server keeps its contract (env_ok): moves legal in its own history, Undo only after the bot accepted and only '
                  'with a move to take back, well-formed lines; hostile schedules are outside the oracle',
@@ -44,8 +50,12 @@ MANIFEST = dict(
          "late returns, timer expiries; any game, colour or observer, AcceptUndo either way): under a server that keeps its contract the "
          "repaired handleMove loop's Positions/Moves equal the authoritative history, every transmitted move was computed for the current "
          "position, on the bot's turn, legal, accepted by the server, the loop ended iff the server ended the game, and it never panicked; "
-         "bot_sends_only_current holds without any assumption on the server; the pinned loop is refuted. The model (with the line "
-         "dispatch and the wire codec) is stepped on the same event lists as the real PlayGame/ObserveGame driven under deterministic "
+         "bot_sends_only_current holds without any assumption on the server; the pinned loop is refuted. Line layer (BotLine.v): "
+         "classify_server_lines (every line a conforming server sends about the game is classified as the intended event with the move "
+         "format_server printed - C11's round trip -, lines of other games and chat lines are ignored WHATEVER their text, none panics), "
+         "classify_panics (exactly which raw lines make the loop panic), classify_chat (the callbacks are made exactly for the members "
+         "of the three chat languages), and bot_tracks_server_raw (the main theorem over raw byte lines). The model is stepped on the "
+         "same raw lines and events as the real PlayGame/ObserveGame driven under deterministic "
          "schedules (real goroutines, real grace timer), and a Go oracle judges the three clauses on the implementation's trace.",
     ref='5.7', technique='Coq invariant proof over event lists + in-package deterministic schedule driver vs extracted model + Go trace oracle',
     note="Trusted: Coq kernel, extraction, transcription of playtak/bot/bot.go (validated by execution), the schedule driver's "
